@@ -960,14 +960,23 @@ func ruleProofKey(c *Ctx) {
 		// the hashed expression and the stored expression must be the same element
 		same := false
 		if kc, ok := ast.Unparen(p.call.Args[0]).(*ast.CallExpr); ok && len(kc.Args) == 1 {
+			isOwnHash := func(r ast.Expr) bool {
+				hc, ok := ast.Unparen(r).(*ast.CallExpr)
+				return ok && len(hc.Args) == 1 && f.calleeSym(hc) == "pkg/crypto/hash.DoubleSha256" && sameExpr(f.Info, hc.Args[0], p.call.Args[1])
+			}
 			if hid, ok := ast.Unparen(kc.Args[0]).(*ast.Ident); ok {
-				for _, d := range f.defs[f.Info.ObjectOf(hid)] {
+				// every definition of the key's hash, not just one of them (seed C03-r9m1 gave the first element another)
+				ds := f.defs[f.Info.ObjectOf(hid)]
+				same = len(ds) > 0
+				for _, d := range ds {
 					for _, r := range d.rhs {
-						if hc, ok := ast.Unparen(r).(*ast.CallExpr); ok && len(hc.Args) == 1 && f.calleeSym(hc) == "pkg/crypto/hash.DoubleSha256" && sameExpr(f.Info, hc.Args[0], p.call.Args[1]) {
-							same = true
+						if !isOwnHash(r) {
+							same = false
 						}
 					}
 				}
+			} else if isOwnHash(kc.Args[0]) {
+				same = true
 			}
 		}
 		if km["pkg/core/mpt.makeStorageKey"] && km["pkg/crypto/hash.DoubleSha256"] && same {
